@@ -3,7 +3,6 @@
 package main
 
 import (
-	"context"
 	"fmt"
 	"math/rand"
 	"os"
@@ -639,15 +638,21 @@ func (e *scriptEnv) stepCheckpointConcurrent() {
 			}
 		}
 		last := i == len(order)-1
+		willPark := !last && e.r.Intn(3) != 0 && !(wmMode && len(parked) > 0)
+		// batched: the barrier and the sender's next event arrive in ONE batch (the runner's per-operator
+		// batcher does not flush on a barrier), so alignment has to take hold in the middle of a batch
+		batched := willPark && e.r.Intn(2) == 0
 		e.logOp("%s: barrier(%d)", s, id)
 		if last {
 			e.model.BarrierComplete()
 		}
-		if err := e.node.Send(s, ophar.BarrierEvent(id)); err != nil {
-			e.c.Fail("handle-event-error", e.wit(), "HandleEvent(barrier %d from %s): %v", id, s, err)
+		if !batched {
+			if err := e.node.Send(s, ophar.BarrierEvent(id)); err != nil {
+				e.c.Fail("handle-event-error", e.wit(), "HandleEvent(barrier %d from %s): %v", id, s, err)
+			}
 		}
 		e.blocked[s] = true
-		if last || e.r.Intn(3) == 0 || (wmMode && len(parked) > 0) {
+		if !willPark {
 			continue
 		}
 		// this aligned sender immediately tries to deliver its next event
@@ -670,7 +675,13 @@ func (e *scriptEnv) stepCheckpointConcurrent() {
 		e.hookMu.Lock()
 		e.parked[s] = ch
 		e.hookMu.Unlock()
-		go func() { ps.done <- e.node.Op.HandleEvent(context.Background(), s, wev) }()
+		if batched {
+			e.logOp("%s: [barrier(%d) and that event travel in one batch]", s, id)
+			e.c.Feat("barrier_inside_batch", 1)
+			go func() { ps.done <- e.node.SendBatch(s, ophar.BarrierEvent(id), wev) }()
+		} else {
+			go func() { ps.done <- e.node.SendBatch(s, wev) }()
+		}
 		select {
 		case <-ch:
 			e.c.Feat("senders_parked_in_alignment", 1)
